@@ -357,6 +357,7 @@ fn wr_script(rng: &mut Rng, prof: Profile) -> String {
     }
     let def = match rng.below(6) {
         0 if prof != Profile::Sizes => "b".to_string(),
+        2 if hostile && rng.chance(1, 3) => "z".to_string(),
         1 => format!("a{}", *rng.pick(smalldef)),
         _ => format!("a{}", 1usize << 40),
     };
@@ -594,6 +595,83 @@ pub fn gen_maskpaths(rng: &mut Rng) -> Vec<Vec<String>> {
             lines.push("end".into());
             cases.push(lines);
             id += 1;
+        }
+    }
+    cases
+}
+
+/// Small-scope exhaustive enumeration for the close-handshake state machine: every sequence of
+/// `depth` symbols over a fixed alphabet, for both roles and two buffer configurations.
+pub fn gen_exhaustive(depth: usize) -> Vec<Vec<String>> {
+    // symbols; `P` = the peer's frame bytes depend on the role (masked towards a server)
+    const SYMS: &[&str] = &[
+        "read", "write", "flush", "close", "ping+read", "peerclose+read", "data+read", "toggle-wr", "eof+read",
+        "reset+read", "pong", "toggle-fl",
+    ];
+    let n = SYMS.len();
+    let mut cases = Vec::new();
+    let total = n.pow(depth as u32);
+    let mut id = 0;
+    for (role, client) in [("server", false), ("client", true)] {
+        for (wbuf, maxw) in [(0usize, "inf".to_string()), (100usize, "140".to_string())] {
+            for code in 0..total {
+                let mut k = code;
+                let mut lines = vec![format!("case endpoint exh-{depth}-{id}")];
+                id += 1;
+                lines.push(format!(
+                    "cfg role={role} rbuf=64 wbuf={wbuf} maxw={maxw} maxmsg=none maxframe=none unmasked=0 pre=none"
+                ));
+                let mask = if client { None } else { Some([0x11u8, 0x22, 0x33, 0x44]) };
+                let m = if client { "m=a1a2a3a4,b1b2b3b4,c1c2c3c4,d1d2d3d4" } else { "m=-" };
+                let mut wr_blocked = false;
+                let mut fl_blocked = false;
+                for _ in 0..depth {
+                    let sym = SYMS[k % n];
+                    k /= n;
+                    match sym {
+                        "read" => lines.push(format!("op read {m}")),
+                        "write" => lines.push(format!("op write binary 0102 {m}")),
+                        "flush" => lines.push(format!("op flush {m}")),
+                        "close" => lines.push(format!("op close 1000 6279 {m}")),
+                        "pong" => lines.push(format!("op write pong 07 {m}")),
+                        "ping+read" => {
+                            lines.push(format!("peer {}", hex(&enc_frame(true, 0, 9, mask, &[0x68, 0x69], LenForm::Minimal))));
+                            lines.push(format!("op read {m}"));
+                        }
+                        "peerclose+read" => {
+                            lines.push(format!("peer {}", hex(&enc_frame(true, 0, 8, mask, &[0x03, 0xe9], LenForm::Minimal))));
+                            lines.push(format!("op read {m}"));
+                        }
+                        "data+read" => {
+                            lines.push(format!("peer {}", hex(&enc_frame(true, 0, 1, mask, b"x", LenForm::Minimal))));
+                            lines.push(format!("op read {m}"));
+                        }
+                        "toggle-wr" => {
+                            wr_blocked = !wr_blocked;
+                            lines.push(format!("script wrdef={}", if wr_blocked { "b".to_string() } else { format!("a{}", 1usize << 40) }));
+                        }
+                        "toggle-fl" => {
+                            fl_blocked = !fl_blocked;
+                            lines.push(format!("script fldef={}", if fl_blocked { "b" } else { "o" }));
+                        }
+                        "eof+read" => {
+                            lines.push("script rd=e".into());
+                            lines.push(format!("op read {m}"));
+                        }
+                        "reset+read" => {
+                            lines.push("script rd=xreset".into());
+                            lines.push(format!("op read {m}"));
+                        }
+                        _ => unreachable!(),
+                    }
+                }
+                // let everything through and drive once more
+                lines.push(format!("script wrdef=a{} fldef=o", 1usize << 40));
+                lines.push(format!("op flush {m}"));
+                lines.push(format!("op read {m}"));
+                lines.push("end".into());
+                cases.push(lines);
+            }
         }
     }
     cases
